@@ -29,15 +29,123 @@ def partition(rng, data, mode):
     return out
 
 
+def tok_len(tok):
+    if tok == '-':
+        return 0
+    if tok.startswith('g'):
+        return int(tok[1:].split('x')[0])
+    return len(tok) // 2
+
+
+def seek_targets(rng, sizes):
+    """Interesting absolute targets for a stream cut into nodes of these sizes."""
+    total = sum(sizes)
+    borders, b = [], 0
+    for z in sizes:
+        borders.append(b); b += z
+    cand = [0, 0, total, total, total - 1, total + 1, -1, 1, total // 2, total + 100, -total]
+    for b in borders:
+        cand += [b, b - 1, b + 1]
+    if total > 0:
+        cand += [rng.randrange(total + 1) for _ in range(4)]
+    return cand
+
+
 class Rda(Engine):
     name = 'rda'
     keep_prefix = 1
     parallel = 8
     timeout = 3000
 
-    def __init__(self, faults=True, nbase=600):
+    def __init__(self, faults=True, nbase=600, nseek=450):
         self.faults = faults
         self.nbase = nbase
+        self.nseek = nseek
+
+    # -- seekable sources: mixed ahead / consume / seek histories ------------------------------------
+    def gen_seek_case(self, rng, i):
+        nn = rng.choice([1, 1, 2, 2, 3, 3, 4])
+        sizes = [rng.choice([0, 0, 1, 1, 2, 3, 5, 17, 100, 600, 1500]) for _ in range(nn)]
+        if rng.random() < 0.05:
+            sizes = [0] * nn
+        total = sum(sizes)
+        data = rand_stream(rng, total)
+        nodes, o = [], 0
+        for z in sizes:
+            nodes.append(data[o:o + z]); o += z
+        clean = rng.random() < 0.65          # every seek that may fail is followed by one that cannot
+        faulty = self.faults and not clean and rng.random() < 0.6
+        term = 'err' if (self.faults and rng.random() < 0.15) else 'eof'
+        ops = [f"snodes {term} {'strict' if clean else 'keep'}" + ''.join(' ' + hexb(n) for n in nodes)]
+        if rng.random() < 0.85:
+            ops.append('blocking ' + ' '.join(str(rng.choice([1, 1, 2, 3, 7, 16, 100, 511, 512, 513, 2000, 65536]))
+                                              for _ in range(rng.choice([1, 1, 2, 3, 6]))))
+        if faulty:
+            ops.append('seeks ' + ' '.join(str(rng.choice([0, 0, 0, 0, -1, -30, -25, -20, 2, 3, 512]))
+                                           for _ in range(rng.choice([1, 2, 3, 6, 10]))))
+        elif self.faults and rng.random() < 0.1:
+            ops.append('seeks ' + ' '.join(str(rng.choice([0, 2, 3, 7, 512])) for _ in range(rng.choice([2, 4, 8]))))
+        r = rng.random()
+        if r < 0.5:
+            ops.append('skips ' + ' '.join(str(rng.choice([0, 1, 2, 10, 100, 512, 4096, 10 ** 6] +
+                                                          ([-1, -30, -999] if self.faults and not clean else [])))
+                                           for _ in range(rng.choice([1, 2, 4, 8]))))
+        elif r < 0.6:
+            ops.append('skips')
+        noseeker = (not clean) and rng.random() < 0.08
+        if noseeker:
+            ops.append('noseeker')
+        ops.append('open')
+        tg = seek_targets(rng, sizes)
+
+        def sure_seek():
+            t = rng.choice([t for t in tg if 0 <= t <= total])
+            return f'seek {t} set' if rng.random() < 0.7 else f'seek {t - total} end'
+
+        for _ in range(rng.choice([4, 8, 14, 22])):
+            r = rng.random()
+            if r < 0.33:
+                m = rng.choice([0, 1, 1, 2, 3, 4, 8, 16, 100, 500, 512, 513, 1024, 1025, 2048, 4097])
+                ops.append(f'ahead {m}')
+            elif r < 0.55:
+                k = rng.choice([0, 1, 1, 2, 3, 7, 50, 512, 1000, 5000] + ([-1] if self.faults else []))
+                ops.append(f'consume {k}')
+            else:
+                t = rng.choice(tg)
+                w = rng.random()
+                if w < 0.5:
+                    ops.append(f'seek {t} set'); sure = 0 <= t <= total
+                elif w < 0.75:
+                    ops.append(f'seek {t - total} end'); sure = 0 <= t <= total
+                elif w < 0.97:
+                    ops.append(f'seek {rng.choice([0, 0, 1, -1, 2, -2, 5, -5, 17, -17, 100, -100, total, -total, t, -t])} cur')
+                    sure = False
+                elif w < 0.985 or noseeker:      # (can_seek is never set without a seek callback)
+                    ops.append(f'seek {t} {rng.choice([3, 7, 99])}'); sure = True     # unknown whence: refused untouched
+                else:
+                    ops.append(f'canseek {rng.choice([0, 0, 1])}'); sure = True
+                    if clean and ops[-1] == 'canseek 0':
+                        ops.append('canseek 1')
+                if clean and not sure:
+                    ops.append(sure_seek())
+        return Case(f'seek{i}', ops, {'mode': 'seek', 'term': term, 'total': total, 'nodes': nn,
+                                      'clean': clean, 'faulty': faulty})
+
+    def gen_seek_adversarial(self, rng, tier):
+        """Every node split of a short stream x every target, each followed by a peek across the border."""
+        data = rand_stream(rng, 6)
+        cuts = [(a, b) for a in range(0, 7) for b in range(a, 7)]
+        if tier == 'quick':
+            cuts = rng.sample(cuts, 8)
+        for a, b in cuts:
+            nodes = [data[:a], data[a:b], data[b:]]
+            hdr = ['snodes eof strict' + ''.join(' ' + hexb(n) for n in nodes), f'blocking {rng.choice([1, 2, 3, 100])}', 'open']
+            ops = list(hdr)
+            for t in range(-1, 8):
+                ok = ['ahead 2'] if 0 <= t <= 6 else []      # strict client: no read between a refused seek and the next good one
+                ops += [f'seek {t} set'] + ok + ['seek 0 set', f'seek {t - 6} end'] + ok + ['seek 6 set', 'ahead 1',
+                        f'seek {t - 6} cur'] + ok + ['seek 3 set', 'ahead 4']
+            yield Case(f'seekcut{a}-{b}', ops, {'mode': 'seekcut', 'term': 'eof', 'total': 6, 'nodes': 3})
 
     def gen(self, rng, tier):
         n = self.nbase if tier == 'quick' else self.nbase * 25
@@ -75,6 +183,14 @@ class Rda(Engine):
                     k = rng.choice([0, 1, 1, 2, 3, 7, 50, 512, 1000, 5000] + ([-1] if self.faults else []))
                     ops.append(f'consume {k}')
             yield Case(f'rda{i}', ops, {'mode': str(mode), 'term': term, 'total': total})
+        # the seek histories draw from a copy of the generator, so that the engines that run after this one
+        # (whole readers) keep the case streams they had before seeks were added
+        import random as _random
+        r2 = _random.Random(); r2.setstate(rng.getstate())
+        nsk = self.nseek if tier == 'quick' else self.nseek * 25
+        for i in range(nsk):
+            yield self.gen_seek_case(r2, i)
+        yield from self.gen_seek_adversarial(r2, tier)
         # adversarial: every two-cut partition of a short stream, peek straddling the cuts
         data = rand_stream(rng, 12)
         lim = 12 if tier == 'quick' else 12
@@ -86,19 +202,76 @@ class Rda(Engine):
                 yield Case(f'cut{c1}-{c2}', ops, {'mode': 'cut', 'term': 'eof', 'total': 12})
 
     def oracle(self, case, impl):
+        """The property evaluated on the implementation's own output: every window holds the true bytes at the
+        reported position; a short read-ahead is short only at the real end; a seek lands exactly on an in-range
+        target and refuses every other one."""
+        total, term, fault_script, align, seeker, canseek = None, 'eof', False, False, True, True
+        seekable = False
+        for op in case.ops:
+            w = op.split()
+            if not w:
+                continue
+            if w[0] == 'snodes':
+                total = sum(tok_len(t) for t in w[3:]); term = w[1]; seekable = True
+            elif w[0] == 'src':
+                term = w[1]
+            elif w[0] == 'seeks':
+                fault_script = any(int(x) < 0 for x in w[1:]); align = any(int(x) > 0 for x in w[1:])
+            elif w[0] == 'noseeker':
+                seeker = False
+        if not seekable:
+            canseek = False
+        unsure = False          # a seek failed and none has succeeded since: buffered data and client may disagree
+        prev_pos, prev_fatal = 0, 0
         for op, o in zip(case.ops, impl):
+            w, f = op.split(), o.split()
+            pre = 'after-failed-seek: ' if unsure else ''
             if 'truth=BAD' in o:
-                return 'read-ahead window does not hold the true stream bytes at the current position: ' + op
+                return pre + 'read-ahead window does not hold the true stream bytes at the current position: ' + op
+            if f and f[0] == 'short' and 'end=no' in o and term == 'eof' and w[0] == 'ahead' and int(w[1]) > 0:
+                zero_blocks = any(x.split()[0] in ('src', 'node') and '-' in x.split()[1:] for x in case.ops)
+                if not zero_blocks:
+                    return pre + 'read-ahead reports end of file although bytes remain: ' + op
+            if w and w[0] == 'canseek' and o == 'ok':
+                canseek = w[1] != '0'
+            if w and w[0] == 'seek' and f and (f[0] == 'seeked' or f[0].startswith('seek-')):
+                tgt = [x for x in f if x.startswith('tgt=')][0][4:]
+                off = int(w[1])
+                target = {'set': off, 'cur': prev_pos + off, 'end': (total or 0) + off}.get(w[2])
+                if f[0] == 'seeked':
+                    r = int(f[1])
+                    if tgt != 'in':
+                        return f'seek to a target outside the stream succeeded (position {r}): ' + op
+                    if not align and r != target:
+                        return f'seek landed on {r}, not on the target {target}: ' + op
+                    if f'pos={r} eof=0' not in o:
+                        return 'position / end-of-file flag after a successful seek: ' + op
+                    unsure = False
+                else:
+                    if (tgt == 'in' and not fault_script and seeker and canseek and prev_fatal == 0 and seekable):
+                        return f'seek to the in-range target {target} failed: ' + op
+                    if f'pos={prev_pos}' not in o and prev_fatal == 0:
+                        return 'a failed seek changed the position: ' + op
+                    if canseek and prev_fatal == 0 and tgt != 'none':
+                        unsure = True
+            for x in f:
+                if x.startswith('pos=') and x[4:].isdigit():
+                    prev_pos = int(x[4:])
+                if x.startswith('fatal=') and x[6:].isdigit():
+                    prev_fatal = int(x[6:])
         return None
 
     def nontrivial(self, case, impl):
         return sum(1 for o in impl if o.startswith('win')) >= 1 and len(case.ops) > 3
 
     def stats(self, cases, impl):
-        st = {'win': 0, 'short': 0, 'fatal': 0, 'consumed': 0, 'open_fatal': 0, 'modes': {}, 'terms': {}}
+        st = {'win': 0, 'short': 0, 'fatal': 0, 'consumed': 0, 'seeked': 0, 'seek-fatal': 0, 'seek-failed': 0,
+              'seek-other': 0, 'seek-warn': 0, 'open_fatal': 0, 'modes': {}, 'terms': {}, 'nodes': {}}
         for c, im in zip(cases, impl):
             st['modes'][c.meta.get('mode')] = st['modes'].get(c.meta.get('mode'), 0) + 1
             st['terms'][c.meta.get('term')] = st['terms'].get(c.meta.get('term'), 0) + 1
+            if 'nodes' in c.meta:
+                st['nodes'][str(c.meta['nodes'])] = st['nodes'].get(str(c.meta['nodes']), 0) + 1
             for o in im:
                 w = o.split()[0] if o else ''
                 if w in st:
